@@ -43,8 +43,8 @@ RULE = ("A case is one crash image of a recorded regtest workload (block connect
         "the durable base image and the real start-up path is run on it. Distinct = distinct (recording, k, semantics); all are "
         "non-trivial (the recorded run starts after the base image, so every k lies inside the workload). Crash points per recording: every "
         "create/rename/unlink/truncate/fallocate boundary (before and after), a stratified sample of sync boundaries per class of synced "
-        "path, points of every phase class (mid-batch, between index and coins write, mid-reorg, prune) and random points; quick: recording "
-        "R1 (linear connects, flushes, two or more reorgs), about 110 k x {K,PB,PD}; thorough: R1-R3 (R2 reorg-heavy, R3 pruning), about "
+        "path, points of every phase class (mid-batch, between index and coins write, mid-reorg, prune) and random points; quick: recordings "
+        "R1 (linear connects, flushes, two or more reorgs) and R3 (pruning), about 50 k each x {K,PB,PD}; thorough: R1-R3 (R2 reorg-heavy, R3 pruning), about "
         "450 k each x {K,PB,PD}, plus an exploratory strict-POSIX pass on a quarter of the points (never a violation).")
 ASSUMPTIONS = [
     "datadir creation (phase init) is taken as fully durable: first-run initialisation writes blocks/xor.dat and LevelDB's first MANIFEST without fsync, which is outside the quantifier of C16",
@@ -70,9 +70,9 @@ _SIMS = {}   # recording name -> Recording (inherited by forked pool workers)
 
 def runs(tier, seed):
     global _RUN, REQUIRED
+    # (the quick tier also records R3, the pruning workload: images of the prune phase are required in both tiers)
     req = [r for r in REQUIRED if r != "img_prune"]
-    if tier == "thorough":
-        req.append("img_prune")
+    req.append("img_prune")
     REQUIRED = req
     _RUN = Run("crashreport", cases=1, params={"file": "unset"}, timeout=900)
     return [_RUN]
@@ -278,7 +278,7 @@ def choose_points(r, tier, rng, want):
             around(op.idx)
         elif op.kind in disksim.SYNC_KINDS:
             classes.setdefault(_sync_class(op), []).append(op.idx)
-    per_class = 3 if tier == "quick" else 12
+    per_class = 6 if tier == "quick" else 12
     for c in sorted(classes):
         lst = classes[c]
         for i in rng.sample(lst, min(per_class, len(lst))):
@@ -465,11 +465,11 @@ def pipeline(tier, seed, workdir, vh, report, recs=None, want=None, sems=None, o
     t0 = time.time()
     rng = random.Random(seed * 1000003 + 17)
     if recs is None:
-        recs = [1] if tier == "quick" else [1, 2, 3]
+        recs = [1, 3] if tier == "quick" else [1, 2, 3]
         if os.environ.get("C16_RECS"):  # development: slice of the recordings
             recs = [int(x) for x in os.environ["C16_RECS"].split(",")]
     if want is None:
-        want = int(os.environ.get("C16_POINTS", "110" if tier == "quick" else "450"))
+        want = int(os.environ.get("C16_POINTS", "50" if tier == "quick" else "450"))
     out = open(report, "w")
 
     def emit(o):
